@@ -121,6 +121,15 @@ func VerifyFunc(p *Program, fc *FuncContract, opts VerifyOpts) (rep *FuncReport)
 	if fc.Decr != nil {
 		x.topDecr0 = toInt(env.eval(fc.Decr))
 	}
+	for _, u := range fc.Uses {
+		if id, ok := u.(SIdent); ok {
+			if lm := p.Specs.Lemmas[id.Name]; lm != nil {
+				st.Assume(x.lemmaAxiom(lm))
+				continue
+			}
+		}
+		st.Assume(x.safeEvalBool(env, u, fc.Key()+" uses"))
+	}
 	x.pre = st.Clone()
 	// watch the ghost pre-state too
 	gn := sortedKeys(func() map[string]bool {
@@ -155,14 +164,14 @@ func VerifyFunc(p *Program, fc *FuncContract, opts VerifyOpts) (rep *FuncReport)
 			}
 		}
 		var hints []*Term
-		for _, u := range fc.Uses {
+		for _, u := range fc.UsesPost {
 			if id, ok := u.(SIdent); ok {
 				if lm := p.Specs.Lemmas[id.Name]; lm != nil {
 					hints = append(hints, x.lemmaAxiom(lm))
 					continue
 				}
 			}
-			hints = append(hints, x.safeEvalBool(post, u, fc.Key()+" uses"))
+			hints = append(hints, x.safeEvalBool(post, u, fc.Key()+" uses_post"))
 		}
 		for i, e := range fc.Ensures {
 			g := x.safeEvalBool(post, e.E, fc.Key()+" ensures")
@@ -319,6 +328,7 @@ func VerifyLemma(p *Program, lm *Lemma) *FuncReport {
 	for _, o := range x.obs {
 		o.Axioms = x.axioms
 		o.SpecDefs = x.specDefs
+		o.Hyps = append(append([]*Term(nil), st.PC...), o.Hyps...) // let-definitions
 	}
 	rep.Obligations = x.obs
 	rep.LemmasUsed = sortedKeys(x.lemmasUsed)
